@@ -287,7 +287,8 @@ def load_known():
 
 
 def match_known(known, prop, case_id, label):
-    key = f"{case_id}::{label}"
+    # a warm variant `<case>@after[<other case>]` showing a recorded finding of <case> itself is that finding
+    key = f"{case_id.split('@after[', 1)[0]}::{label}"
     for k in known:
         if k.get("property") == prop and k.get("status") == "known" and fnmatch.fnmatchcase(key, k["pattern"]):
             return k
@@ -367,6 +368,7 @@ def main(argv=None):
     ap.add_argument("--only", help="fnmatch pattern on case ids")
     ap.add_argument("--list", action="store_true")
     ap.add_argument("--no-evidence", action="store_true")
+    ap.add_argument("--no-warm", action="store_true", help="skip the history axis (warm variants, symx/warm.py)")
     ap.add_argument("-v", action="store_true")
     a = ap.parse_args(argv)
     if a.replay:
@@ -389,6 +391,9 @@ def main(argv=None):
     cases = H.cases(a.tier, mods)
     ids = [c.id for c in cases]
     assert len(set(ids)) == len(ids), "duplicate case ids: " + str([i for i in ids if ids.count(i) > 1][:5])
+    from . import warm
+    warm_cases, warm_info = warm.expand(H, cases, a.tier, seed, known=load_known(), prop=prop) if not a.no_warm else ([], dict(variants=0, rule="--no-warm"))
+    cases = cases + warm_cases
     if a.only:
         cases = [c for c in cases if fnmatch.fnmatchcase(c.id, a.only)]
     if a.list:
@@ -556,6 +561,7 @@ def main(argv=None):
                            disagreements=len(cross_tot["disagree"]), cvc5_s=round(cross_tot["cvc5_s"], 2), rejected_samples=cross_tot["errors"][:3]),
         samples=tot["samples"][:5] + [{"case_ids": [r["id"] for r in results[:: max(1, len(results) // 8)]][:8]}],
         inconclusive=problems[:20], exhaustive=False,
+        history_axis=dict(warm_info, explored=sum(1 for r in results if warm.is_warm(r["id"]))),
     )
     if hasattr(H, "coverage_extra"):
         cov.update(H.coverage_extra(results, a.tier))
